@@ -26,7 +26,7 @@ FAULT_REPLAYS = 12
 def settle(events):
     """Append the suffix that lets everything that can still complete do so: read, drain, steal all."""
     ns = sum(1 for e in events if e.startswith("S,"))
-    nm = sum(1 for e in events if e.startswith("M,")) + sum(e.count(":") // 2 for e in events if e.startswith("BW,"))
+    nm = sum(1 for e in events if e.startswith("M,")) + sum(e.count(":") // 2 for e in events if e.startswith("BW,") or e.startswith("BT,"))
     return list(events) + ["R"] + ["D"] * min(nm + ns + 3, 24) + ["T,%d" % i for i in range(min(ns, 16))]
 
 
@@ -122,6 +122,67 @@ def gen_bw(rnd, count):
     return out
 
 
+def norm_clock(us):
+    return "%d.%d" % (us // 1000000, us % 1000000)
+
+
+def gen_bt(rnd, count):
+    """dbus_pending_call_block under a scripted clock (BT): readings around every boundary of the elapsed-time arithmetic
+    (elapsed = timeout - 1 / timeout, microsecond borrow with and without a remainder, same reading twice, clock stepping
+    backwards inside a second and across seconds), default / zero / one-millisecond / absent timeouts, replies and unrelated
+    traffic arriving in any round, poll timing out, peer or local close before the wait."""
+    out = []
+    fixed = [
+        ["S,5,1", "BT,0,5,10.0/10.2000/10.4999/10.5000,x"], ["S,5,1", "BT,0,5,10.0/10.4999/10.5000,x"], ["S,5,1", "BT,0,5,10.999999/11.4998/11.4999,x"],
+        ["S,1,1", "BT,0,1,0.999999/1.500,x"], ["S,1,1", "BT,0,1,0.999999/1.999,x"], ["S,1,1", "BT,0,1,0.0/0.999/0.1000,x"],
+        ["S,0,1", "BT,0,0,7.5/7.5,x"], ["S,0,1", "M,r,c0,1", "BT,0,0,7.5/7.5,x"], ["S,0,1", "BT,0,0,7.5/7.4,r:c0:1"],
+        ["S,-1,1", "BT,0,-1,1.0/10.0/25.999999/26.0,-/-"], ["S,-1,0", "BT,0,-1,1.0/25.999999/26.0,s:#0:1/-"], ["S,-1,1", "BT,0,-1,1.0/26.1,r:c0:1"],
+        ["S,50,1", "BT,0,50,9.0/8.999999,x"], ["S,50,1", "BT,0,50,9.500000/9.400000/9.549999/9.550000,-/-"], ["S,50,1", "BT,0,50,9.0/8.0/9.0,r:c0:1"],
+        ["S,inf,1", "BT,0,inf,5.0/6.0/7.0,s:#0:1/r:c0:2"], ["S,inf,1", "BT,0,inf,5.0/4.0/3.0,s:#0:1/s:#0:2/r:c0:3"], ["S,inf,1", "M,s,#0,1", "BT,0,inf,5.0/5.1,e:c0:2"],
+        ["S,100,1", "BT,0,100,5.0/5.30000/5.60000,s:#0:1/-/r:c0:2"], ["S,100,1", "S,100,1", "BT,1,100,5.0/5.30000/5.99999/5.100000,r:c0:1/-"],
+        ["S,50,1", "X", "BT,0,50,9.0/9.1/9.2,x"], ["S,50,1", "L", "BT,0,50,9.0/9.1,x"], ["S,50,1", "S,8,1", "X", "S,50,1", "BT,2,50,9.0/9.1/9.2,x", "D", "D"],
+        ["S,50,1", "M,r,c0,1", "X", "BT,0,50,9.0/9.1,x"], ["S,50,1", "S,50,1", "M,r,c0,1", "X", "BT,1,50,9.0/9.1/9.2,x", "D", "D"],
+        ["S,50,1", "F,0", "BT,0,50,9.0/9.1,x"], ["S,50,1", "C,0", "BT,0,50,9.0/9.049/9.050,x"], ["S,50,1", "F,0", "C,0", "D", "BT,0,50,9.0/9.1,x"],
+        ["S,50,1", "BT,0,50,9.0/9.1,x", "BT,0,50,9.0/9.1,x", "D"], ["S,50,1", "M,r,#9,1", "BT,0,50,9.0/9.010000/9.2,r:c0:5", "D"]]
+    out += [list(x) for x in fixed]
+    for _ in range(count):
+        n = rnd.randint(1, 3)
+        args = [rnd.choice(("0", "1", "5", "100", "-1", "inf", "inf", "1000")) for _ in range(n)]
+        ev = ["S,%s,%d" % (a, rnd.randint(0, 1)) for a in args]
+        tag = 0
+        for _ in range(rnd.randint(0, 3)):
+            r = rnd.random(); tag += 1
+            if r < 0.4: ev.append("M,%s,%s,%d" % (rnd.choice("sre"), rnd.choice(("#99", "c%d" % rnd.randrange(n))), tag))
+            elif r < 0.55: ev.append("R")
+            elif r < 0.7: ev.append("D")
+            elif r < 0.78: ev.append("F,%d" % rnd.randrange(n))
+            elif r < 0.86: ev.append("C,%d" % rnd.randrange(n))
+            elif r < 0.93: ev.append("X")
+            else: ev.append("P")
+        i = rnd.randrange(n)
+        ms = {"-1": 25000, "inf": None}.get(args[i], None if args[i] == "inf" else int(args[i]) if args[i] not in ("-1", "inf") else None)
+        if args[i] == "-1": ms = 25000
+        t = rnd.choice((0, 999999, 1500000, 12345678, 999000))
+        clocks = [t]
+        for _ in range(rnd.randint(1, 5)):
+            base_ms = ms if ms is not None else 1000
+            d = rnd.choice((0, 1, 999, 1000, 1001, base_ms * 1000 - 1001, base_ms * 1000 - 1000, base_ms * 1000 - 1, base_ms * 1000, base_ms * 1000 + 1,
+                            base_ms * 500, -1, -1000, -1000000, 3000000))
+            t = max(0, clocks[0] + d) if rnd.random() < 0.6 else max(0, t + d)
+            clocks.append(t)
+        arr = []
+        for _ in range(rnd.randint(0, 3)):
+            r = rnd.random(); tag += 1
+            if r < 0.3 and ms is not None: arr.append("-")
+            elif r < 0.6: arr.append("%s:%s:%d" % (rnd.choice("sre"), rnd.choice(["#99"] + ["c%d" % j for j in range(n) if j != i] + ["#7"]), tag))
+            else: arr.append("%s:c%d:%d" % (rnd.choice("rre"), i, tag))
+        ev.append("BT,%d,%s,%s,%s" % (i, args[i], "/".join(norm_clock(c) for c in clocks), "/".join(arr) if arr else "x"))
+        for _ in range(rnd.randint(0, 2)):
+            ev.append(rnd.choice(("D", "R", "T,%d" % i)))
+        out.append(ev)
+    return out
+
+
 EXH_PREFIX = ["S,12,1"]
 EXH_ALPHA = ["M,r,c0,1", "M,e,c0,2", "R", "W", "D", "F,0", "C,0", "B,0", "T,0", "X", "L", "S,12,0", "M,r,c1,3", "B,1"]
 
@@ -169,7 +230,7 @@ def gen_boundary():
 # --------------------------------------------------------------------------
 # trace parsing and the specification oracle
 # --------------------------------------------------------------------------
-OBS_RE = re.compile(r"n(\d+)|f(N|Z|X\d+|[res]\d+\.\d+)|d([012])|t(-|0|N\d+|X\d+|[res]\d+\.\d+)|s(-|\d+)|p(\d+)|(w-?)|(F-?)|(!\w+)")
+OBS_RE = re.compile(r"q(-?\d+)|i(-|\d+)|n(\d+)|f(N|Z|X\d+|[res]\d+\.\d+)|d([012])|t(-|0|N\d+|X\d+|[res]\d+\.\d+)|s(-|\d+)|p(\d+)|(w-?)|(F-?)|(!\w+)")
 
 
 def parse_trace(line):
@@ -243,11 +304,20 @@ def oracle(events, line):
                 for c in calls:
                     if c["serial"] == rs and not c["completed"] and not c["cancelled"]:
                         c["delivered"] = True
-        elif f[0] == "BW":
+        elif f[0] in ("BW", "BT"):
             bi = int(f[1])
-            if peer_open and connected:
+            spec = f[2] if f[0] == "BW" else f[4]
+            if f[0] == "BT" and bi < len(calls) and not calls[bi]["completed"]:
+                # has the timeout really expired at some reading of the scripted clock?
+                rd = [int(a) * 1000000 + int(b) for a, b in (x.split(".") for x in f[3].split("/"))]
+                ms = {"-1": 25000, "inf": None}.get(f[2], None)
+                if f[2] not in ("-1", "inf"):
+                    ms = int(f[2])
+                calls[bi]["bt_expired"] = ms is not None and any(r - rd[0] >= ms * 1000 for r in rd[1:])
+                calls[bi]["bt"] = True
+            if peer_open and connected and spec != "x":
                 hit = False
-                for item in f[2].replace("/", "+").split("+"):
+                for item in [x for x in spec.replace("/", "+").split("+") if x != "-"]:
                     k, tgt, tg = item.split(":")
                     rs = None
                     if tgt[0] == "c":
@@ -267,7 +337,7 @@ def oracle(events, line):
                 # the wait must end with a message from the peer, never with a locally made error
                 if hit and bi < len(calls) and not disc:
                     c = calls[bi]
-                    if not c["completed"] and not c["cancelled"] and not c["fired"] and c["ms"] in ("inf", "2000"):
+                    if not c["completed"] and not c["cancelled"] and not c["fired"] and (c["ms"] in ("inf", "2000") if f[0] == "BW" else c["ms"] == "inf"):
                         c["expect_peer"] = True
         elif f[0] == "X":
             peer_open = False
@@ -291,7 +361,7 @@ def oracle(events, line):
             if comp and c["notify"] and nc != 1:
                 bad.append(("violation", "call %d completed but notify count is %d (event %d)" % (i, nc, idx)))
             if comp and not c["completed"] and c["cancelled"]:
-                cls = "cancel-block" if (f[0] in ("B", "BW") and int(f[1]) == i) else "violation"
+                cls = "cancel-block" if (f[0] in ("B", "BW", "BT") and int(f[1]) == i) else "violation"
                 bad.append((cls, "call %d was cancelled before it completed, yet event %d (%s) completed%s it" % (
                     i, idx, ev, " and notified" if nc else "")))
             if comp and treg:
@@ -318,6 +388,9 @@ def oracle(events, line):
                 if c["stolen"]:
                     bad.append(("violation", "call %s handed out a second reply %s" % (f[1], got)))
                 c["stolen"] = True
+                if got[0] == "N" and c.get("bt") and not c.get("bt_expired") and not c["fired"] and not c["cancelled"] and c.get("bt_conn"):
+                    bad.append(("early-timeout", "call %s (timeout %s) was completed by a blocking wait with the timeout error although at no reading "
+                                "of the clock had its timeout expired" % (f[1], c["ms"])))
                 if got[0] in "NX":
                     if c["expect_peer"]:
                         bad.append(("violation", "call %s (serial %d, timeout %s) was blocked on while its reply arrived on an open connection, "
@@ -333,6 +406,8 @@ def oracle(events, line):
                     if int(tg) in tag_used and tag_used[int(tg)] != int(f[1]):
                         bad.append(("violation", "peer message %s completed two different calls" % got))
                     tag_used[int(tg)] = int(f[1])
+        if f[0] == "BT" and int(f[1]) < len(calls) and calls[int(f[1])].get("bt") and "bt_conn" not in calls[int(f[1])]:
+            calls[int(f[1])]["bt_conn"] = connected and not disc
         connected = not disc
     # liveness, judged after the settle suffix
     for i, c in enumerate(calls):
@@ -372,6 +447,7 @@ def run(ctx):
             cases.append(("corpus", c["events"].split()))
     cases += [("boundary", e) for e in gen_boundary()]
     cases += [("blockwhile", e) for e in gen_bw(rnd, 250 if tier == "quick" else 4000)]
+    cases += [("clock", e) for e in gen_bt(rnd, 3000 if tier == "quick" else 60000)]
     cases += [("exhaustive", e) for e in gen_exhaustive(4 if tier == "quick" else 5)]
     cases += [("random", e) for e in gen_random(rnd, 12000 if tier == "quick" else 300000, 22)]
     # the same families on a connection whose counter stands beyond 2^31 / just before the wrap (harness-kept counter, see pending_h.c)
@@ -402,7 +478,7 @@ def run(ctx):
         rep.violation("extracted model failed on `%s`: %s" % (line[:300], err[-300:]), {"input": line, "names": "model driver"}, found_input=False)
     normal, faults, hangs = [], [], 0
     for k, m in enumerate(mout):
-        if "HANG" in m or "FUEL" in m:
+        if "HANG" in m or "FUEL" in m or "EXHAUSTED" in m:
             hangs += 1                      # the schedule blocks for ever on a call with no timeout: not runnable
         elif "FAULT" in m:
             faults.append(k)
@@ -468,7 +544,7 @@ def run(ctx):
                               {"events": " ".join(ev), "impl": i, "model": m, "names": "correspondence pending_h vs PendingCall.Pending.step1"}, found_input=False)
             continue
         for cls, text in found:
-            fid = {"strand": "F17.1", "cancel-block": "F17.2"}.get(cls)
+            fid = {"strand": "F17.1", "cancel-block": "F17.2", "early-timeout": "F17.4"}.get(cls)
             if fid and fid in known:
                 rep.known(known[fid], " ".join(ev))
             else:
